@@ -513,6 +513,12 @@ fn debug_session(text: &str, markers: &[(u32, u32)], script: &Json) -> DebugOut 
     let mut last_resume_continue = true;
     let text_owned = text.to_owned();
     let tx2 = tx.clone();
+    let trace: Arc<Mutex<Vec<(u32, usize)>>> = Arc::new(Mutex::new(Vec::new()));
+    let trace2 = trace.clone();
+    // (index into the trace of the statement stopped at, how the client resumed: 0 = continue,
+    // 1 = step into, 2 = step over, 3 = step out)
+    let mut resumed: Option<(usize, u8)> = None;
+    let mut detached = false;
     let eval_thread = std::thread::Builder::new()
         .stack_size(64 << 20)
         .spawn(move || {
@@ -521,6 +527,9 @@ fn debug_session(text: &str, markers: &[(u32, u32)], script: &Json) -> DebugOut 
             let r = std::panic::catch_unwind(std::panic::AssertUnwindSafe(|| {
                 Module::with_temp_heap(|module| {
                     let mut eval = Evaluator::new(&module);
+                    // The recorder comes first: at a stop the last recorded statement is the one
+                    // the debugger stopped at.
+                    eval.before_stmt_for_dap(BeforeStmtFunc::from_dyn(Box::new(TraceHook { log: trace2 })));
                     hook.add_dap_hooks(&mut eval);
                     match kit::parse(FILE, &text_owned) {
                         Err(e) => result = format!("parse-error {e}"),
@@ -551,6 +560,21 @@ fn debug_session(text: &str, markers: &[(u32, u32)], script: &Json) -> DebugOut 
             Ok(Event::Done(t, r)) => {
                 out.transcript = t;
                 out.result = r;
+                if let (Some((p, kind)), false) = (resumed, detached) {
+                    let tr = trace.lock().unwrap();
+                    if kind != 0 && p < tr.len() {
+                        let d = tr[p].1;
+                        if let Some(e) = tr[p + 1..].iter().find(|e| match kind {
+                            1 => true,
+                            2 => e.1 <= d,
+                            _ => e.1 < d,
+                        }) {
+                            out.problems.push(("debugger-step-wrong".to_owned(), format!("after step kind {kind} at line {} (depth {d}) the program ran to its end, past line {} (depth {})", tr[p].0, e.0, e.1)));
+                        } else {
+                            *out.stats.entry("steps_checked_to_the_end".to_owned()).or_insert(0) += 1;
+                        }
+                    }
+                }
                 break;
             }
             Ok(Event::Stopped) => {
@@ -567,6 +591,35 @@ fn debug_session(text: &str, markers: &[(u32, u32)], script: &Json) -> DebugOut 
                     }
                 };
                 out.stops.push(line);
+                // Stepping: the stop must be the FIRST statement after the previous stop which the
+                // requested kind of step selects (into: any; over: call stack not deeper than at the
+                // request; out: shallower) - or a breakpoint.
+                {
+                    let tr = trace.lock().unwrap();
+                    let q = tr.len().saturating_sub(1);
+                    if let Some((p, kind)) = resumed {
+                        if q <= p || p >= tr.len() {
+                            out.problems.push(("debugger-step-wrong".to_owned(), format!("stop {n}: no statement was started since the previous stop (trace index {p} -> {q})")));
+                        } else {
+                            let d = tr[p].1;
+                            let sel = |e: &(u32, usize)| match kind {
+                                1 => true,
+                                2 => e.1 <= d,
+                                3 => e.1 < d,
+                                _ => false,
+                            };
+                            let has_bp = |e: &(u32, usize)| e.0 != 0 && bps.iter().any(|b| b.0 == e.0);
+                            if let Some(r) = (p + 1..q).find(|r| sel(&tr[*r])) {
+                                out.problems.push(("debugger-step-wrong".to_owned(), format!("stop {n}: after step kind {kind} at line {} (depth {d}) the program ran past line {} (depth {}) and stopped at line {} (depth {})", tr[p].0, tr[r].0, tr[r].1, tr[q].0, tr[q].1)));
+                            } else if kind != 0 && !sel(&tr[q]) && !has_bp(&tr[q]) {
+                                out.problems.push(("debugger-step-wrong".to_owned(), format!("stop {n}: after step kind {kind} at line {} (depth {d}) the program stopped at line {} (depth {}) which the step does not select and where no breakpoint is", tr[p].0, tr[q].0, tr[q].1)));
+                            } else if kind != 0 {
+                                *out.stats.entry(format!("steps_checked_kind_{kind}")).or_insert(0) += 1;
+                            }
+                        }
+                    }
+                    resumed = Some((q, 0));
+                }
                 // After `continue` the program may only stop where a breakpoint is set.
                 if mode == "mixed" && last_resume_continue && !bps.iter().any(|b| b.0 == line) {
                     out.problems.push(("debugger-stop-without-reason".to_owned(), format!("stop {n} at line {line} after `continue`, breakpoints are on lines {:?}", bps.iter().map(|b| b.0).collect::<Vec<_>>())));
@@ -654,6 +707,7 @@ fn debug_session(text: &str, markers: &[(u32, u32)], script: &Json) -> DebugOut 
                     // Fault: the debugger goes away while the program is stopped.
                     *out.stats.entry("detaches".to_owned()).or_insert(0) += 1;
                     adapter = None;
+                    detached = true;
                     continue;
                 }
                 if out.stops.len() as u64 >= max_stops {
@@ -669,14 +723,17 @@ fn debug_session(text: &str, markers: &[(u32, u32)], script: &Json) -> DebugOut 
                     "mixed" => match rng.below(4) {
                         0 => {
                             last_resume_continue = false;
+                            resumed = resumed.map(|(q, _)| (q, 1));
                             ad.step(StepKind::Into)
                         }
                         1 => {
                             last_resume_continue = false;
+                            resumed = resumed.map(|(q, _)| (q, 2));
                             ad.step(StepKind::Over)
                         }
                         2 => {
                             last_resume_continue = false;
+                            resumed = resumed.map(|(q, _)| (q, 3));
                             ad.step(StepKind::Out)
                         }
                         _ => ad.continue_(),
@@ -688,6 +745,11 @@ fn debug_session(text: &str, markers: &[(u32, u32)], script: &Json) -> DebugOut 
                             "mixed" => *rng.pick(&[StepKind::Into, StepKind::Over, StepKind::Out]),
                             _ => StepKind::Into,
                         };
+                        resumed = resumed.map(|(q, _)| (q, match kind {
+                            StepKind::Into => 1,
+                            StepKind::Over => 2,
+                            StepKind::Out => 3,
+                        }));
                         ad.step(kind)
                     }
                     _ => ad.continue_(),
@@ -737,6 +799,21 @@ fn debug_session(text: &str, markers: &[(u32, u32)], script: &Json) -> DebugOut 
 impl DebugOut {
     fn stops_vars_push(&mut self, line: u32, shown: BTreeMap<String, String>) {
         self.vars.push((self.stops.len(), line, shown));
+    }
+}
+
+/// Records every statement the instrumented evaluation starts: (line, call-stack depth).
+struct TraceHook {
+    log: Arc<Mutex<Vec<(u32, usize)>>>,
+}
+
+impl<'e> BeforeStmtFuncDyn<'e> for TraceHook {
+    fn call<'v>(&mut self, span: FileSpanRef, continued: bool, eval: &mut Evaluator<'v, '_, 'e>) -> starlark::Result<()> {
+        if !continued {
+            let line = if span.filename() == FILE { span.resolve_span().begin.line as u32 + 1 } else { 0 };
+            self.log.lock().unwrap().push((line, eval.call_stack_count()));
+        }
+        Ok(())
     }
 }
 
